@@ -187,7 +187,7 @@ def validate_sessions(chk, sessions, label):
 
     def one(chunk):
         recs = [r for s in chunk for r in s]
-        return recs, validate_trace_all("TraceNeighbors", recs, max_rejects=5)
+        return recs, validate_trace_all("TraceNeighbors", recs, max_rejects=5, session_start=lambda r: r["op"] in ("write", "open"))
 
     with cf.ThreadPoolExecutor(max_workers=nchunks) as ex:
         for recs, (res, rejects) in ex.map(one, chunks):
